@@ -391,7 +391,11 @@ func (e *Exec) runFunction(fn *ssa.Function, args []Value, binds []Value) (ret V
 	e.depth++
 	defer func() { e.depth-- }()
 	if e.Funcs != nil && fn.Pkg != nil {
-		e.Funcs[fn.String()] = true
+		if _, seen := e.Funcs[fn.String()]; !seen {
+			// record functions of the code under test (not harness code)
+			file := e.L.Prog.Fset.Position(fn.Pos()).Filename
+			e.Funcs[fn.String()] = !strings.Contains(file, "zz_verif") && !strings.Contains(file, "zzverif")
+		}
 	}
 	fr := &Frame{Fn: fn, Env: make(map[ssa.Value]Value, 32), Visits: map[*ssa.BasicBlock]int{}}
 	for i, p := range fn.Params {
